@@ -8,6 +8,36 @@ import (
 
 func init() { extractors = append(extractors, extractUtxo) }
 
+// bodiesInlined returns the body of fd and the bodies of the same-file unexported helpers (unique name, lower
+// case) it calls, depth levels deep.
+func bodiesInlined(f *ast.File, fd *ast.FuncDecl, depth int) []*ast.BlockStmt {
+	out := []*ast.BlockStmt{fd.Body}
+	if f == nil || depth == 0 {
+		return out
+	}
+	byName := map[string][]*ast.FuncDecl{}
+	for _, d := range f.Decls {
+		if g, ok := d.(*ast.FuncDecl); ok && g.Body != nil {
+			byName[g.Name.Name] = append(byName[g.Name.Name], g)
+		}
+	}
+	seen := map[string]bool{fd.Name.Name: true}
+	for _, c := range calls(fd.Body) {
+		name := strings.TrimPrefix(c.name, "defer ")
+		if i := strings.LastIndex(name, "."); i >= 0 {
+			name = name[i+1:]
+		}
+		if name == "" || !(name[0] >= 'a' && name[0] <= 'z') || seen[name] {
+			continue
+		}
+		if gs := byName[name]; len(gs) == 1 {
+			seen[name] = true
+			out = append(out, bodiesInlined(f, gs[0], depth-1)...)
+		}
+	}
+	return out
+}
+
 // extractUtxo records the source facts the C10 model relies on:
 //   - the order of the three steps of batchSpendReporter.ProcessBlock;
 //   - the comparison operators of the two loops of UtxoScanner.dequeueAtHeight and where each loop puts
@@ -30,13 +60,19 @@ func extractUtxo() {
 	if fd := funcDecl(fr, "batchSpendReporter", "ProcessBlock"); fd == nil {
 		fail("batch_spend_reporter.go: method batchSpendReporter.ProcessBlock")
 	} else {
-		for _, c := range calls(fd.Body) {
-			if strings.HasPrefix(c.name, "b.") {
-				steps = append(steps, c.name)
+		// only the relative order of the three steps matters; calls made through same-file unexported
+		// helpers count as made at the call site, other reporter calls (e.g. a helper that rebuilds the
+		// watch list) are not part of the fact
+		for _, c := range callsInlined(fr, fd.Body) {
+			switch c.name {
+			case "b.addNewRequests", "b.findInitialTransactions", "b.notifySpends":
+				if len(steps) == 0 || steps[len(steps)-1] != c.name {
+					steps = append(steps, c.name)
+				}
 			}
 		}
 	}
-	l.def("processBlockSteps", "List String", lstrs(steps), "reporter methods called by ProcessBlock, in source order")
+	l.def("processBlockSteps", "List String", lstrs(steps), "order in which ProcessBlock (helpers inlined) runs addNewRequests, findInitialTransactions and notifySpends")
 	shape["processBlockSteps"] = steps
 
 	// 2. dequeueAtHeight loops
@@ -81,7 +117,7 @@ func extractUtxo() {
 	if fd := funcDecl(fs, "UtxoScanner", "scanFromHeight"); fd == nil {
 		fail("utxoscanner.go: method UtxoScanner.scanFromHeight")
 	} else {
-		for _, c := range calls(fd.Body) {
+		for _, c := range callsInlined(fs, fd.Body) {
 			if strings.HasPrefix(c.name, "reporter.") || strings.HasPrefix(c.name, "s.cfg.") ||
 				c.name == "s.dequeueAtHeight" || c.name == "newBatchSpendReporter" || c.name == "failRequests" {
 				seq = append(seq, c.name)
@@ -96,7 +132,7 @@ func extractUtxo() {
 	if fd := funcDecl(fr, "batchSpendReporter", "notifyRequests"); fd == nil {
 		fail("batch_spend_reporter.go: method batchSpendReporter.notifyRequests")
 	} else {
-		for _, c := range calls(fd.Body) {
+		for _, c := range callsInlined(fr, fd.Body) {
 			switch {
 			case c.name == "delete" && len(c.args) == 2:
 				nseq = append(nseq, "delete "+c.args[0])
@@ -107,6 +143,34 @@ func extractUtxo() {
 	}
 	l.def("notifyRequestsSeq", "List String", lstrs(nseq), "map deletions and deliveries of notifyRequests in source order")
 	shape["notifyRequestsSeq"] = nseq
+
+	// 4b. what the watch list is rebuilt from: `for _, entry := range <X> { b.filterEntries = append(b.filterEntries, entry) }`
+	// in ProcessBlock or in a same-file unexported helper it calls
+	var sources []string
+	if fd := funcDecl(fr, "batchSpendReporter", "ProcessBlock"); fd != nil {
+		for _, body := range bodiesInlined(fr, fd, 2) {
+			ast.Inspect(body, func(x ast.Node) bool {
+				rs, ok := x.(*ast.RangeStmt)
+				if !ok {
+					return true
+				}
+				// the rebuild loop appends unconditionally (the incremental add of addNewRequests is
+				// guarded by a first-time test and is not meant here)
+				appends := false
+				for _, st := range rs.Body.List {
+					if as, ok := st.(*ast.AssignStmt); ok && len(as.Lhs) == 1 && src(as.Lhs[0]) == "b.filterEntries" {
+						appends = true
+					}
+				}
+				if appends {
+					sources = append(sources, src(rs.X))
+				}
+				return true
+			})
+		}
+	}
+	l.def("watchListSources", "List String", lstrs(sources), "maps the watch list (filterEntries) is rebuilt from after a block was processed")
+	shape["watchListSources"] = sources
 
 	// 5. F5 repair: `if tx == nil && b.initialTxns[...] != nil { continue }` before `b.initialTxns[...] = tx`
 	keeps := false
